@@ -117,10 +117,12 @@ impl<W, R, T> CompilationScope<'_, W, R, T> {
             ret: rtype,
             short_circuit_overloads: false,
         };
-        let defaults = param_static_defaults
+        let defaults: Vec<XExpr<W, R, T>> = param_static_defaults
             .into_iter()
             .filter_map(|s| s.map(|s| self.compile(s)))
             .collect::<Result<_, _>>()
+            .map_err(|e| e.trace(input))?;
+        self.check_default_types(&param_names, &spec.params, &defaults)
             .map_err(|e| e.trace(input))?;
         let param_len = param_names.len();
         Ok(ParsedFunctionHeader {
@@ -134,6 +136,34 @@ impl<W, R, T> CompilationScope<'_, W, R, T> {
             gen_param_names,
             specific_gen_params,
         })
+    }
+
+    /// the default value of an optional parameter must be assignable to the parameter's declared type
+    /// (without binding any generic), like the value of a declared variable
+    fn check_default_types(
+        &self,
+        param_names: &[Identifier],
+        params: &[XFuncParamSpec],
+        defaults: &[XExpr<W, R, T>],
+    ) -> Result<(), CompilationError> {
+        let optional = param_names
+            .iter()
+            .zip(params.iter())
+            .filter(|(_, p)| !p.required);
+        for ((name, param), default) in optional.zip(defaults.iter()) {
+            let default_type = self.type_of(default)?;
+            match param.type_.bind_in_assignment(&default_type) {
+                Some(bind) if bind.is_empty() => {}
+                _ => {
+                    return Err(CompilationError::VariableTypeMismatch {
+                        variable_name: *name,
+                        expected_type: param.type_.clone(),
+                        actual_type: default_type,
+                    })
+                }
+            }
+        }
+        Ok(())
     }
 
     pub(crate) fn feed(
@@ -799,10 +829,12 @@ impl<W, R, T> CompilationScope<'_, W, R, T> {
                         })
                         .multiunzip();
                 let param_len = param_specs.len();
-                let defaults = param_static_defaults
+                let defaults: Vec<XExpr<W, R, T>> = param_static_defaults
                     .into_iter()
                     .filter_map(|s| s.map(|s| self.compile(s)))
                     .collect::<Result<_, _>>()
+                    .map_err(|e| e.trace(&input))?;
+                self.check_default_types(&param_names, &param_specs, &defaults)
                     .map_err(|e| e.trace(&input))?;
                 let mut subscope = CompilationScope::from_parent_lambda(
                     self,
